@@ -26,6 +26,10 @@ func (du *decodeUnit) cycle(app risc.Application, ctx *risc.Context, inBus *comp
 	if ctx.Debug {
 		fmt.Printf("\tDU: Decoding instruction %d\n", pc/4)
 	}
+	if int(pc)/4 >= len(app.Instructions) {
+		// The pipeline was redirected past the last instruction
+		return
+	}
 	runner := app.Instructions[pc/4]
 	if runner.InstructionType().IsUnconditionalBranch() {
 		du.pendingBranchResolution = true
